@@ -29,18 +29,40 @@ def run(chk):
                        "domains the property is silent about are not judged: PrimeSqrt/ModSqrt with the factor 2, Group.Exp outside -Order < e < Order "
                        "or with the result aliasing the exponent, RandomPrimeInRange on intervals without a candidate prime, safeprime.Generate below 8 bits (N3)",
                        "safeprime.Generate draws from crypto/rand: its recorded values differ between runs with the same seed"]
+    # 0. the groups zkproof.BuildGroup makes of the small safe primes, as found in the tree under check (generators are derived by
+    #    hashing since D50): written as module GroupGens for every TLC run below, and held against the contract by TLC
+    d = vplib.sub("c19")
+    gp = os.path.join(d, "GroupGens.tla")
+    import subprocess
+    exe = vplib.build_harness("nt", False)
+    pr = subprocess.run([exe, "groups", "--n", "4096", "--out", gp], stdout=subprocess.PIPE, stderr=subprocess.STDOUT, text=True, timeout=900, env=vplib.goenv())
+    if pr.returncode != 0 or not os.path.exists(gp):
+        raise vplib.Machinery("nt groups: %s" % pr.stdout[-1000:])
+    gens = {"GroupGens.tla": open(gp).read()}
+    gc = "NumTheory.group.%s.cfg" % T
+    r = vplib.tlc("NumTheory", gc, timeout=1500, files=gens, allow_fail=True)
+    chk.add_tlc(r, "NumTheory", gc, "GroupContract: BuildGroup refuses exactly P = 5 and returns two different elements of order (P-1)/2 otherwise")
+    if "GroupContract" in r.invariant_violated:
+        m = re.search(r"k = (\d+)", r.out[r.out.find("GroupContract"):])
+        P = m.group(1) if m else "?"
+        line = re.search(r"\(%s :> <<[^>]*>>\)" % P, gens["GroupGens.tla"])
+        chk.add_violation({"kind": "group-contract", "fn": "BuildGroup",
+                           "what": "zkproof.BuildGroup(%s) = %s (built, G, H) violates the contract of the specification (refuse exactly P = 5; otherwise two different elements of order (P-1)/2 other than 1)" % (P, line.group(0) if line else "?"),
+                           "args": {"P": P}})
+        return
+    if r.error or r.invariant_violated:
+        raise vplib.Machinery("group contract run failed: %s %s" % (r.error, r.invariant_violated))
     # 1. lemmas
     mc = "NumTheory.mc.%s.cfg" % T
-    r = vplib.tlc_mc("NumTheory", mc, timeout=1500)
+    r = vplib.tlc_mc("NumTheory", mc, timeout=1500, files=gens)
     chk.add_tlc(r, "NumTheory", mc, "cross-consistency lemmas of the definitions at every k (16 interleaved chains)")
     # 2. expected-result tables
     gen = "NumTheory.gen.%s.cfg" % T
-    g = vplib.tlc("NumTheoryGen", gen, workers=1, timeout=2400 if thorough else 600, heap="8g")
+    g = vplib.tlc("NumTheoryGen", gen, workers=1, timeout=2400 if thorough else 600, heap="8g", files=gens)
     rows = g.tagged_raw_json("T")
     if len(rows) < 1000 or '"t":"end"' not in rows[-1]:
         raise vplib.Machinery("table generator produced %d rows / no end marker" % len(rows))
     chk.add_tlc(g, "NumTheoryGen", gen, "%d table rows (one per modulus and helper)" % len(rows))
-    d = vplib.sub("c19")
     tp = os.path.join(d, "tables.ndjson")
     with open(tp, "w") as f:
         f.write("\n".join(rows) + "\n")
@@ -49,7 +71,7 @@ def run(chk):
     chk.add_replay(res, "table_replay")
     chk.exhaustive = True
     # 4. records from the real code, validated by TLC
-    for v in record_and_validate(chk, T, chk.seed):
+    for v in record_and_validate(chk, T, chk.seed, gens):
         chk.add_violation(v)
     # 5. large operands, math/big only
     lg = vplib.vh("nt", ["large", "--tier", T, "--seed", str(chk.seed)], timeout=3000)
@@ -63,7 +85,7 @@ def run(chk):
     if lg.get("evaluations", 0) < 1000:
         raise vplib.Machinery("large-operand run evaluated only %d relations" % lg.get("evaluations", 0))
 
-def record_and_validate(chk, T, seed):
+def record_and_validate(chk, T, seed, gens=None):
     """nt record -> one trace file -> NumTheoryTrace; returns the violations (rejected records)."""
     d = vplib.sub("c19")
     trace = os.path.join(d, "trace.ndjson")
@@ -73,7 +95,7 @@ def record_and_validate(chk, T, seed):
     if len(lines) < 500:
         raise vplib.Machinery("recorder produced only %d records" % len(lines))
     tv = vplib.tlc("NumTheoryTrace", "NumTheory.trace.cfg", workers=1, timeout=3000 if T == "thorough" else 900,
-                   files={"trace.ndjson": text}, allow_fail=True, heap="12g")
+                   files=dict(gens or {}, **{"trace.ndjson": text}), allow_fail=True, heap="12g")
     chk.add_tlc(tv, "NumTheoryTrace", "NumTheory.trace.cfg", "%d recorded batches = %d calls of the real helpers" % (len(lines), rec.get("evaluations", 0)))
     if "MALFORMED" in tv.out:
         raise vplib.Machinery("recorder wrote a record outside the domain of the specification:\n%s" % "\n".join(re.findall(r'<<"MALFORMED".*', tv.out)[:5]))
